@@ -754,7 +754,7 @@ class _ARM64_ELF(ABI):
         return ".L"
 
     def default_dwarf_eh_return_column(self) -> int:
-        return 32
+        return 30
 
     def _sym_expr_rules(
         self, module: gtirb.Module
@@ -889,7 +889,7 @@ class _MIPS32_ELF(ABI):
         return ".L"
 
     def default_dwarf_eh_return_column(self) -> int:
-        return 32
+        return 31
 
     def _sym_expr_rules(
         self, module: gtirb.Module
